@@ -38,13 +38,44 @@ def entryAllocs (t : Nat) (e : Entry) : List Nat :=
 
 def dbAllocs (t : Nat) (p : Nat × Db) : List Nat := p.2.flatMap (entryAllocs t)
 
-/-- hypotheses on one key, as propositions -/
+/-- hypotheses on one key, as propositions (`val`: well-formed AS WRITTEN, i.e. with the escape
+    element counted when writer and loader apply the escape rule) -/
 structure EntryOk (fix : Fix) (e : Entry) : Prop where
   key : strOk e.key = true
-  val : valueWF e.val = true
+  val : valueWF (escValue fix.listEscape e.val) = true
   dl : ∀ d, e.deadline = some d → d < two64
-  nomarker : startsWithMarker e.val = false
+  nomarker : startsWithMarker e.val = false ∨ fix.listEscape = true
   stream : isEmptyStream e.val = false ∨ fix.keepEmptyStream = true
+
+/-! ### the writer with the escape rule, seen through the byte-level writer -/
+
+@[simp] theorem Fix.code_listEscape : Fix.code.listEscape = false := rfl
+@[simp] theorem Fix.fixed_listEscape : Fix.fixed.listEscape = true := rfl
+
+@[simp] theorem escEntry_mk (esc : Bool) (k : Bytes) (v : Value) (dl : Option Nat) :
+    escEntry esc ⟨k, v, dl⟩ = ⟨k, escValue esc v, dl⟩ := rfl
+
+@[simp] theorem escDb_nil (esc : Bool) : escDb esc [] = [] := rfl
+@[simp] theorem escDb_cons (esc : Bool) (e : Entry) (es : Db) : escDb esc (e :: es) = escEntry esc e :: escDb esc es := rfl
+@[simp] theorem escDb_length (esc : Bool) (db : Db) : (escDb esc db).length = db.length := by simp [escDb]
+@[simp] theorem escDb_isEmpty (esc : Bool) (db : Db) : (escDb esc db).isEmpty = db.isEmpty := by cases db <;> rfl
+@[simp] theorem escDataset_nil (esc : Bool) : escDataset esc [] = [] := rfl
+@[simp] theorem escDataset_cons (esc : Bool) (p : Nat × Db) (d : Dataset) :
+    escDataset esc (p :: d) = (p.1, escDb esc p.2) :: escDataset esc d := rfl
+
+@[simp] theorem escEntry_false (e : Entry) : escEntry false e = e := by
+  obtain ⟨k, v, dl⟩ := e
+  simp
+@[simp] theorem escDb_false (db : Db) : escDb false db = db := by
+  induction db with
+  | nil => rfl
+  | cons e es ih => simp [ih]
+@[simp] theorem escDataset_false (d : Dataset) : escDataset false d = d := by
+  induction d with
+  | nil => rfl
+  | cons p d ih => simp [ih]
+@[simp] theorem saveSnapshot_false (ver : Bytes) (d : Dataset) (t : Nat) : saveSnapshot false ver d t = encSnapshot ver d t := by
+  simp [saveSnapshot]
 
 theorem typeByte_le (v : Value) : typeByte v ≤ 4 := by cases v <;> simp [typeByte]
 
@@ -66,14 +97,19 @@ theorem keys_loadedEntry (fix : Fix) (t now : Nat) (e : Entry) :
 
 theorem loadLoop_entry (fix : Fix) (t now : Nat) (s : Store) (i : Nat) (hi : i < numDbs) (his : i ∉ indices s)
     (acc : Db) (e : Entry) (he : EntryOk fix e) (hfresh : e.key ∉ keys acc) (rest : Bytes) (fuel : Nat)
-    (hfuel : (encEntry t e ++ rest).length + 1 ≤ fuel) :
+    (hfuel : (encEntry t (escEntry fix.listEscape e) ++ rest).length + 1 ≤ fuel) :
     ∃ fuel', rest.length + 1 ≤ fuel' ∧
-      loadLoop fix now fuel i (withDb s i acc) (encEntry t e ++ rest) =
-        (loadLoop fix now fuel' i (withDb s i (acc ++ loadedEntry fix t now e)) rest).pre (entryAllocs t e) := by
+      loadLoop fix now fuel i (withDb s i acc) (encEntry t (escEntry fix.listEscape e) ++ rest) =
+        (loadLoop fix now fuel' i (withDb s i (acc ++ loadedEntry fix t now e)) rest).pre
+          (entryAllocs t (escEntry fix.listEscape e)) := by
   obtain ⟨k, v, dl⟩ := e
   obtain ⟨hk, hv, hdl, hm, hs⟩ := he
   simp only at hk hv hdl hm hs hfresh
+  simp only [escEntry_mk] at hfuel ⊢
   have hty := typeByte_le v
+  have hkv : ∀ dl' r, loadTyped fix true acc (typeByte v) dl' (encString k ++ (encValue (escValue fix.listEscape v) ++ r)) =
+      .ok (k, acc ++ [⟨k, v, dl'⟩]) r (k.length :: valueAllocs (escValue fix.listEscape v)) :=
+    fun dl' r => loadTyped_encKV fix acc k v dl' hk hv hm hs hfresh r
   have hvalid : decide (i < numDbs) = true := by simp [hi]
   cases dl with
   | none =>
@@ -89,9 +125,9 @@ theorem loadLoop_entry (fix : Fix) (t now : Nat) (s : Store) (i : Nat) (hi : i <
         have h5 : ¬ typeByte v = 252 := by omega
         have h6 : ¬ typeByte v = 253 := by omega
         rw [loadLoop]
-        simp only [encEntry, encKV, List.cons_append, readByte, Res.bind_ok, Res.pre_nil, h1, h2, h3, h4, h5, h6,
+        simp only [encEntry, encKV, typeByte_escValue, List.cons_append, readByte, Res.bind_ok, Res.pre_nil, h1, h2, h3, h4, h5, h6,
           if_false, getDb_withDb s i acc his, hvalid, List.append_assoc]
-        rw [loadTyped_encKV fix acc k v none hk hv hm hs hfresh rest]
+        rw [hkv none rest]
         simp only [Res.bind_ok, setDb_withDb s i _ _ his, loadedEntry, entryAllocs]
   | some d =>
     have hd := hdl d rfl
@@ -107,7 +143,7 @@ theorem loadLoop_entry (fix : Fix) (t now : Nat) (s : Store) (i : Nat) (hi : i <
         · have e1 : t + (d - t) = d := by omega
           have h1 : ¬ typeByte v = 255 := by omega
           rw [loadLoop]
-          simp only [encEntry, hdt, if_false, encKV, List.cons_append, readByte, Res.bind_ok, Res.pre_nil, e1,
+          simp only [encEntry, hdt, if_false, encKV, typeByte_escValue, List.cons_append, readByte, Res.bind_ok, Res.pre_nil, e1,
             List.append_assoc, Nat.reduceEqDiff, if_true]
           rw [readFixed_u64le]
           simp only [Res.bind_ok, Res.pre_nil, readByte, leVal_u64le d hd, getDb_withDb s i acc his, hvalid]
@@ -115,20 +151,20 @@ theorem loadLoop_entry (fix : Fix) (t now : Nat) (s : Store) (i : Nat) (hi : i <
           by_cases hnow : d > now
           · have hnow' : now < d := hnow
             simp only [hnow, if_true]
-            rw [loadTyped_encKV fix acc k v (some d) hk hv hm hs hfresh rest]
+            rw [hkv (some d) rest]
             simp only [Res.bind_ok, Res.pre_ok, setDb_withDb s i _ _ his, loadedEntry, entryAllocs, hdt, hnow',
               if_false, if_true, List.append_nil, List.nil_append, Res.pre_nil]
           · have hnow' : ¬ now < d := hnow
             simp only [hnow, if_false]
             by_cases hfix : fix.dropExpired = true
             · simp only [hfix, if_true]
-              rw [loadTyped_encKV fix acc k v none hk hv hm hs hfresh rest]
+              rw [hkv none rest]
               have her := eraseKey_append_single acc ⟨k, v, none⟩ hfresh
               simp only at her
               simp only [Res.bind_ok, Res.pre_ok, her, setDb_withDb s i _ _ his, loadedEntry, entryAllocs, hdt,
                 hnow', hfix, if_false, if_true, List.append_nil, List.nil_append, Res.pre_nil, lift_ok]
             · simp only [hfix, if_false]
-              rw [loadTyped_encKV fix acc k v none hk hv hm hs hfresh rest]
+              rw [hkv none rest]
               simp only [Res.bind_ok, Res.pre_ok, setDb_withDb s i _ _ his, loadedEntry, entryAllocs, hdt,
                 hnow', hfix, if_false, if_true, List.append_nil, List.nil_append, Res.pre_nil,
                 Bool.false_eq_true]
@@ -139,10 +175,11 @@ theorem loadLoop_entries (fix : Fix) (t now : Nat) (s : Store) (i : Nat) (hi : i
     (es : Db) :
     ∀ (acc : Db) (fuel : Nat) (rest : Bytes),
       (∀ e ∈ es, EntryOk fix e) → (keys es).Nodup → (∀ e ∈ es, e.key ∉ keys acc) →
-      (encEntries t es ++ rest).length + 1 ≤ fuel →
+      (encEntries t (escDb fix.listEscape es) ++ rest).length + 1 ≤ fuel →
       ∃ fuel', rest.length + 1 ≤ fuel' ∧
-        loadLoop fix now fuel i (withDb s i acc) (encEntries t es ++ rest) =
-          (loadLoop fix now fuel' i (withDb s i (acc ++ loadedDb fix t now es)) rest).pre (es.flatMap (entryAllocs t)) := by
+        loadLoop fix now fuel i (withDb s i acc) (encEntries t (escDb fix.listEscape es) ++ rest) =
+          (loadLoop fix now fuel' i (withDb s i (acc ++ loadedDb fix t now es)) rest).pre
+            ((escDb fix.listEscape es).flatMap (entryAllocs t)) := by
   induction es with
   | nil =>
     intro acc fuel rest _ _ _ hfuel
@@ -150,10 +187,10 @@ theorem loadLoop_entries (fix : Fix) (t now : Nat) (s : Store) (i : Nat) (hi : i
   | cons e es ih =>
     intro acc fuel rest hok hnd hfresh hfuel
     simp only [keys, List.map_cons, List.nodup_cons] at hnd
-    have hfuel' : (encEntry t e ++ (encEntries t es ++ rest)).length + 1 ≤ fuel := by
+    have hfuel' : (encEntry t (escEntry fix.listEscape e) ++ (encEntries t (escDb fix.listEscape es) ++ rest)).length + 1 ≤ fuel := by
       simpa [encEntries, List.append_assoc] using hfuel
     obtain ⟨f1, hf1, h1⟩ := loadLoop_entry fix t now s i hi his acc e (hok e (by simp)) (hfresh e (by simp))
-      (encEntries t es ++ rest) fuel hfuel'
+      (encEntries t (escDb fix.listEscape es) ++ rest) fuel hfuel'
     have hfresh' : ∀ e' ∈ es, e'.key ∉ keys (acc ++ loadedEntry fix t now e) := by
       intro e' he' hmem
       rw [keys_append, List.mem_append] at hmem
@@ -165,7 +202,7 @@ theorem loadLoop_entries (fix : Fix) (t now : Nat) (s : Store) (i : Nat) (hi : i
     obtain ⟨f2, hf2, h2⟩ := ih (acc ++ loadedEntry fix t now e) f1 rest (fun x hx => hok x (by simp [hx]))
       (by simpa [keys] using hnd.2) hfresh' hf1
     refine ⟨f2, hf2, ?_⟩
-    simp only [encEntries, List.flatMap_cons, List.append_assoc] at h1 h2 ⊢
+    simp only [encEntries, escDb_cons, List.flatMap_cons, List.append_assoc] at h1 h2 ⊢
     rw [h1, h2]
     simp [loadedDb, List.append_assoc]
 
@@ -179,15 +216,16 @@ structure DbOk (fix : Fix) (p : Nat × Db) : Prop where
   nodup : (keys p.2).Nodup
 
 theorem loadLoop_db (fix : Fix) (t now : Nat) (s : Store) (p : Nat × Db) (hp : DbOk fix p) (his : p.1 ∉ indices s)
-    (cur fuel : Nat) (rest : Bytes) (hfuel : (encDb t p ++ rest).length + 1 ≤ fuel) :
+    (cur fuel : Nat) (rest : Bytes) (hfuel : (encDb t (p.1, escDb fix.listEscape p.2) ++ rest).length + 1 ≤ fuel) :
     ∃ fuel', rest.length + 1 ≤ fuel' ∧
-      loadLoop fix now fuel cur s (encDb t p ++ rest) =
-        (loadLoop fix now fuel' p.1 (withDb s p.1 (loadedDb fix t now p.2)) rest).pre (dbAllocs t p) := by
+      loadLoop fix now fuel cur s (encDb t (p.1, escDb fix.listEscape p.2) ++ rest) =
+        (loadLoop fix now fuel' p.1 (withDb s p.1 (loadedDb fix t now p.2)) rest).pre
+          (dbAllocs t (p.1, escDb fix.listEscape p.2)) := by
   obtain ⟨i, es⟩ := p
   obtain ⟨hi, hne, hlen, hok, hnd⟩ := hp
   simp only at hi hne hlen hok hnd his
   have hi32 : i < two32 := by unfold numDbs at hi; unfold two32; omega
-  simp only [encDb, hne, Bool.false_eq_true, if_false, List.cons_append, List.append_assoc] at hfuel ⊢
+  simp only [encDb, escDb_isEmpty, escDb_length, hne, Bool.false_eq_true, if_false, List.cons_append, List.append_assoc] at hfuel ⊢
   cases fuel with
   | zero => simp at hfuel
   | succ f1 =>
@@ -195,7 +233,7 @@ theorem loadLoop_db (fix : Fix) (t now : Nat) (s : Store) (p : Nat × Db) (hp : 
     cases f1 with
     | zero => simp at hfuel <;> omega
     | succ f2 =>
-      have hfuel2 : (encEntries t es ++ rest).length + 1 ≤ f2 := by
+      have hfuel2 : (encEntries t (escDb fix.listEscape es) ++ rest).length + 1 ≤ f2 := by
         simp only [List.length_cons, List.length_append] at hfuel ⊢
         omega
       have hs0 : withDb s i [] = s := by simp [withDb]
@@ -227,10 +265,11 @@ theorem mem_indices_withDb {s : Store} {i j : Nat} {db : Db} (h : j ∈ indices 
 theorem loadLoop_dbs (fix : Fix) (t now : Nat) (d : Dataset) :
     ∀ (s : Store) (cur fuel : Nat) (rest : Bytes),
       (∀ p ∈ d, DbOk fix p) → (d.map (·.1)).Nodup → (∀ p ∈ d, p.1 ∉ indices s) →
-      (encDbs t d ++ rest).length + 1 ≤ fuel →
+      (encDbs t (escDataset fix.listEscape d) ++ rest).length + 1 ≤ fuel →
       ∃ fuel' cur', rest.length + 1 ≤ fuel' ∧
-        loadLoop fix now fuel cur s (encDbs t d ++ rest) =
-          (loadLoop fix now fuel' cur' (s ++ loadedDataset fix t now d) rest).pre (d.flatMap (dbAllocs t)) := by
+        loadLoop fix now fuel cur s (encDbs t (escDataset fix.listEscape d) ++ rest) =
+          (loadLoop fix now fuel' cur' (s ++ loadedDataset fix t now d) rest).pre
+            ((escDataset fix.listEscape d).flatMap (dbAllocs t)) := by
   induction d with
   | nil =>
     intro s cur fuel rest _ _ _ hfuel
@@ -238,10 +277,10 @@ theorem loadLoop_dbs (fix : Fix) (t now : Nat) (d : Dataset) :
   | cons p d ih =>
     intro s cur fuel rest hok hnd hdisj hfuel
     simp only [List.map_cons, List.nodup_cons] at hnd
-    have hfuel' : (encDb t p ++ (encDbs t d ++ rest)).length + 1 ≤ fuel := by
+    have hfuel' : (encDb t (p.1, escDb fix.listEscape p.2) ++ (encDbs t (escDataset fix.listEscape d) ++ rest)).length + 1 ≤ fuel := by
       simpa [encDbs, List.append_assoc] using hfuel
     obtain ⟨f1, hf1, h1⟩ := loadLoop_db fix t now s p (hok p (by simp)) (hdisj p (by simp)) cur fuel
-      (encDbs t d ++ rest) hfuel'
+      (encDbs t (escDataset fix.listEscape d) ++ rest) hfuel'
     have hdisj' : ∀ q ∈ d, q.1 ∉ indices (withDb s p.1 (loadedDb fix t now p.2)) := by
       intro q hq hmem
       cases mem_indices_withDb hmem with
@@ -250,7 +289,7 @@ theorem loadLoop_dbs (fix : Fix) (t now : Nat) (d : Dataset) :
     obtain ⟨f2, c2, hf2, h2⟩ := ih (withDb s p.1 (loadedDb fix t now p.2)) p.1 f1 rest
       (fun q hq => hok q (by simp [hq])) hnd.2 hdisj' hf1
     refine ⟨f2, c2, hf2, ?_⟩
-    simp only [encDbs, List.flatMap_cons, List.append_assoc] at h1 h2 ⊢
+    simp only [encDbs, escDataset_cons, List.flatMap_cons, List.append_assoc] at h1 h2 ⊢
     rw [h1, h2]
     have hst : withDb s p.1 (loadedDb fix t now p.2) ++ loadedDataset fix t now d =
         s ++ loadedDataset fix t now (p :: d) := by
@@ -272,9 +311,9 @@ structure DatasetOk (fix : Fix) (d : Dataset) : Prop where
 theorem loadLoop_body (fix : Fix) (ver : Bytes) (d : Dataset) (t now : Nat)
     (hver : ver.length < two32) (ht : t < two64) (hd : DatasetOk fix d) (ck : Bytes) (hck8 : ck.length = 8)
     (fuel : Nat)
-    (hfuel : (encAux auxVerKey ver ++ (encAux auxCtimeKey (natDigits (t / 1000)) ++ (encDbs t d ++ 255 :: ck))).length + 1 ≤ fuel) :
-    loadLoop fix now fuel 0 [] (encAux auxVerKey ver ++ (encAux auxCtimeKey (natDigits (t / 1000)) ++ (encDbs t d ++ 255 :: ck))) =
-      .ok (loadedDataset fix t now d) [] (snapshotAllocs ver d t) := by
+    (hfuel : (encAux auxVerKey ver ++ (encAux auxCtimeKey (natDigits (t / 1000)) ++ (encDbs t (escDataset fix.listEscape d) ++ 255 :: ck))).length + 1 ≤ fuel) :
+    loadLoop fix now fuel 0 [] (encAux auxVerKey ver ++ (encAux auxCtimeKey (natDigits (t / 1000)) ++ (encDbs t (escDataset fix.listEscape d) ++ 255 :: ck))) =
+      .ok (loadedDataset fix t now d) [] (snapshotAllocs ver (escDataset fix.listEscape d) t) := by
   have hct : (natDigits (t / 1000)).length < two32 := by
     have := natDigits_length_u64 (t / 1000) (by unfold two64 at ht ⊢; omega)
     unfold two32; omega
@@ -300,7 +339,7 @@ theorem loadLoop_body (fix : Fix) (ver : Bytes) (d : Dataset) (t now : Nat)
       simp only [Res.bind_ok]
       rw [readString_encString _ hct]
       simp only [Res.bind_ok]
-      have hf2 : (encDbs t d ++ (255 :: ck)).length + 1 ≤ f2 := by
+      have hf2 : (encDbs t (escDataset fix.listEscape d) ++ (255 :: ck)).length + 1 ≤ f2 := by
         simp only [List.length_cons, List.length_append]
         omega
       obtain ⟨f3, c3, hf3, h3⟩ := loadLoop_dbs fix t now d [] 0 f2 (255 :: ck) hd.dbs hd.nodup
@@ -321,13 +360,14 @@ theorem encSnapshot_eq (ver : Bytes) (d : Dataset) (t : Nat) :
       (encAux auxCtimeKey (natDigits (t / 1000)) ++ (encDbs t d ++ 255 :: u64le (encBody ver d t).sum)))) := by
   simp [encSnapshot, encBody, header, List.append_assoc]
 
-/-- The loader (any switch setting) applied to the writer's output for ANY valid dataset, at any
-    save time `t < 2^64` and load time `now`: the result is `loadedDataset`, nothing is left over,
-    and the allocations are exactly the string lengths. -/
+/-- The loader (any switch setting) applied to the output of the writer that agrees with it on the
+    escape rule, for ANY valid dataset, at any save time `t < 2^64` and load time `now`: the result
+    is `loadedDataset`, nothing is left over, and the allocations are exactly the string lengths. -/
 theorem decSnapshotT_encSnapshot (fix : Fix) (ver : Bytes) (d : Dataset) (t now : Nat)
     (hver : ver.length < two32) (ht : t < two64) (hd : DatasetOk fix d) :
-    decSnapshotT fix (encSnapshot ver d t) now =
-      .ok (loadedDataset fix t now d) [] (snapshotAllocs ver d t) := by
+    decSnapshotT fix (saveSnapshot fix.listEscape ver d t) now =
+      .ok (loadedDataset fix t now d) [] (snapshotAllocs ver (escDataset fix.listEscape d) t) := by
+  unfold saveSnapshot
   rw [encSnapshot_eq]
   generalize hsum : u64le _ = ck
   have hck8 : ck.length = 8 := by rw [← hsum]; exact u64le_length _
@@ -341,36 +381,46 @@ theorem decSnapshotT_encSnapshot (fix : Fix) (ver : Bytes) (d : Dataset) (t now 
 
 theorem decSnapshot_encSnapshot (fix : Fix) (ver : Bytes) (d : Dataset) (t now : Nat)
     (hver : ver.length < two32) (ht : t < two64) (hd : DatasetOk fix d) :
-    decSnapshot fix (encSnapshot ver d t) now = .ok (loadedDataset fix t now d) := by
+    decSnapshot fix (saveSnapshot fix.listEscape ver d t) now = .ok (loadedDataset fix t now d) := by
   unfold decSnapshot
   rw [decSnapshotT_encSnapshot fix ver d t now hver ht hd]
 
 /-! ### from the Boolean well-formedness predicates of the model to `DatasetOk` -/
 
-theorem datasetOk_of_wf (fix : Fix) (d : Dataset) (hwf : datasetWF d = true)
-    (hm : anyEntry (fun e => startsWithMarker e.val) d = false)
+theorem datasetOk_of_wf (fix : Fix) (d : Dataset) (hwf : datasetWF (escDataset fix.listEscape d) = true)
+    (hm : anyEntry (fun e => startsWithMarker e.val) d = false ∨ fix.listEscape = true)
     (hs : anyEntry (fun e => isEmptyStream e.val) d = false ∨ fix.keepEmptyStream = true) :
     DatasetOk fix d := by
   simp only [datasetWF, Bool.and_eq_true, List.all_eq_true, decide_eq_true_eq, Bool.not_eq_true'] at hwf
   obtain ⟨hall, hnd⟩ := hwf
-  simp only [anyEntry, List.any_eq_false] at hm
+  have hidx : (escDataset fix.listEscape d).map (·.1) = d.map (·.1) := by simp [escDataset]
+  rw [hidx] at hnd
   refine ⟨?_, hnd⟩
   intro p hp
-  obtain ⟨⟨hidx, hne⟩, hdb⟩ := hall p hp
-  simp only [dbWF, Bool.and_eq_true, List.all_eq_true, decide_eq_true_eq] at hdb
+  have hp' : (p.1, escDb fix.listEscape p.2) ∈ escDataset fix.listEscape d :=
+    List.mem_map.mpr ⟨p, hp, rfl⟩
+  obtain ⟨⟨hidx, hne⟩, hdb⟩ := hall _ hp'
+  simp only [dbWF, Bool.and_eq_true, List.all_eq_true, decide_eq_true_eq, escDb_isEmpty, escDb_length] at hdb hne
   obtain ⟨⟨hents, hlen⟩, hknd⟩ := hdb
+  have hkeys : (escDb fix.listEscape p.2).map (·.key) = p.2.map (·.key) := by simp [escDb, escEntry]
+  rw [hkeys] at hknd
   refine ⟨hidx, hne, hlen, ?_, by simpa [keys] using hknd⟩
   intro e he
-  have hewf := hents e he
+  have hewf := hents (escEntry fix.listEscape e) (List.mem_map.mpr ⟨e, he, rfl⟩)
   simp only [entryWF, Bool.and_eq_true] at hewf
   obtain ⟨⟨hk, hv⟩, hdl⟩ := hewf
   refine ⟨hk, hv, ?_, ?_, ?_⟩
   · intro dd hdd
-    rw [hdd] at hdl
+    have : (escEntry fix.listEscape e).deadline = some dd := hdd
+    rw [this] at hdl
     simpa using hdl
-  · have := hm p hp
-    simp only [List.any_eq_true, not_exists, not_and, Bool.not_eq_true] at this
-    exact this e he
+  · cases hm with
+    | inl h =>
+      simp only [anyEntry, List.any_eq_false] at h
+      have := h p hp
+      simp only [List.any_eq_true, not_exists, not_and, Bool.not_eq_true] at this
+      exact Or.inl (this e he)
+    | inr h => exact Or.inr h
   · cases hs with
     | inl h =>
       simp only [anyEntry, List.any_eq_false] at h
@@ -378,6 +428,49 @@ theorem datasetOk_of_wf (fix : Fix) (d : Dataset) (hwf : datasetWF d = true)
       simp only [List.any_eq_true, not_exists, not_and, Bool.not_eq_true] at this
       exact Or.inl (this e he)
     | inr h => exact Or.inr h
+
+/-! ### the rule touches nothing but lists headed by a reserved string -/
+
+theorem escValue_of_not_reserved (esc : Bool) (v : Value) (h : reservedHead v = false) : escValue esc v = v := by
+  cases v with
+  | list xs => simp only [reservedHead] at h; simp [escValue, listItems, h]
+  | _ => rfl
+
+theorem startsWithMarker_le_reservedHead (v : Value) (h : reservedHead v = false) : startsWithMarker v = false := by
+  cases v with
+  | list xs =>
+    cases xs with
+    | nil => rfl
+    | cons x xs =>
+      simp only [reservedHead, needsEscape, Bool.or_eq_false_iff] at h
+      simpa [startsWithMarker] using h.1
+  | _ => rfl
+
+theorem anyEntry_mono (p q : Entry → Bool) (d : Dataset) (hpq : ∀ e, q e = false → p e = false)
+    (h : anyEntry q d = false) : anyEntry p d = false := by
+  simp only [anyEntry, List.any_eq_false, List.any_eq_true, not_exists, not_and, Bool.not_eq_true] at h ⊢
+  exact fun x hx e he => hpq e (h x hx e he)
+
+/-- a dataset without such a list is written byte for byte the same with and without the rule -/
+theorem escDataset_of_no_reserved (esc : Bool) (d : Dataset) (h : anyEntry (fun e => reservedHead e.val) d = false) :
+    escDataset esc d = d := by
+  simp only [anyEntry, List.any_eq_false] at h
+  unfold escDataset
+  rw [List.map_congr_left (g := id)]
+  · simp
+  · intro p hp
+    have hp' := h p hp
+    simp only [List.any_eq_true, not_exists, not_and, Bool.not_eq_true] at hp'
+    have : escDb esc p.2 = p.2 := by
+      unfold escDb
+      rw [List.map_congr_left (g := id)]
+      · simp
+      · intro e he
+        obtain ⟨k, v, dl⟩ := e
+        have := hp' _ he
+        simp only at this
+        simp [escValue_of_not_reserved esc v this]
+    simp [this]
 
 /-! ### when the loader's result is what the property prescribes -/
 
